@@ -81,7 +81,7 @@ Definition class_ok (c : comp) : bool :=
   && negb (c_pks c && c_nrps c).
 
 Lemma table_class_ok :
-  forallb (fun l => class_ok (mkComp l 0 0 0)) (concat c14_classification_order) = true.
+  forallb (fun l => class_ok (mkComp l [] 0 0)) (concat c14_classification_order) = true.
 Proof. vm_compute. reflexivity. Qed.
 
 Lemma existsb_concat_in x (ll : list (list Z)) :
